@@ -323,6 +323,21 @@ func c17Poly(c *fw.Ctx, gf *utils.GaloisField, rf refdec.Field, fs fieldSpec, r 
 				c.Violation("gfpoly.Divide/identity", fmt.Sprintf("q=%v r=%v: q*b+r=%v != a", q.Coefficients, rem.Coefficients, back), inner, "")
 				bad = true
 			}
+			// quotient and remainder are polynomials like any other: the library's own
+			// operations must work on them and reproduce the dividend
+			if q == nil || rem == nil || len(q.Coefficients) == 0 || len(rem.Coefficients) == 0 {
+				c.Violation("gfpoly.Divide/malformed-result", fmt.Sprintf("quotient %v / remainder %v without coefficients", q, rem), inner, "")
+				bad = true
+				return
+			}
+			_, _ = rem.Zero(), rem.Degree()
+			if lib := q.Multiply(pb).AddOrSubstract(rem); !refdec.PolyEq(lib.Coefficients, a) {
+				c.Violation("gfpoly.Divide/identity", fmt.Sprintf("with the library's own operations q*b+r = %v != a", lib.Coefficients), inner, "")
+				bad = true
+			}
+			if len(refdec.PolyNorm(b)) == 1 {
+				c.Cover("divisor_degree", "0 (non-zero constant)")
+			}
 			nr, nb := refdec.PolyNorm(rem.Coefficients), refdec.PolyNorm(b)
 			if !refdec.PolyIsZero(nr) && len(nr) >= len(nb) {
 				c.Violation("gfpoly.Divide/degree", fmt.Sprintf("remainder %v has degree >= divisor %v", nr, nb), inner, "")
